@@ -19,6 +19,7 @@ type vStore struct {
 	ops       int  // mutating operations issued so far (in the current window)
 	failAt    int  // the failAt-th mutating operation fails (-1: never)
 	counting  bool // ops are counted / faults injected only while true
+	strict      bool // flag a use of an ended transaction's handle at the moment it happens
 	useAfterEnd int // storage operations observed on handles of an ended transaction
 	writes    int
 }
@@ -45,6 +46,11 @@ type vBucket struct {
 func (b vBucket) check() {
 	if *b.ended {
 		b.st.useAfterEnd++
+		if b.st.strict {
+			// a goroutine of the batch is still working on a transaction that has ended
+			// (with bbolt: use of a closed transaction, outside any recover)
+			vassert("storage-used-after-its-transaction-ended", false)
+		}
 	}
 }
 func (b vBucket) IsReadOnly() bool { return b.ro }
